@@ -181,3 +181,74 @@ Proof.
   { rewrite <- (index_from_fst lst 0). rewrite map_map. reflexivity. }
   rewrite E. apply FinFun.Injective_map_NoDup; [intros x y H; inversion H; reflexivity|apply zrange_nodup].
 Qed.
+
+(* ---- the staking order is a function of the stake set (C01) ------------------------------------- *)
+(* equal stakes are ordered by address (the repair): (stake, address) is a strict total order on
+   distinct addresses, so the sorted list — whose positions become the payout txids — is the same
+   for every enumeration of the map *)
+Lemma stake_before_iff (x y : addr * Z) :
+  stake_before x y = true <-> snd x < snd y \/ (snd x = snd y /\ fst x < fst y).
+Proof.
+  unfold stake_before. rewrite orb_true_iff, andb_true_iff, !Z.ltb_lt, Z.eqb_eq. tauto.
+Qed.
+
+Inductive sorted_stakes : list (addr * Z) -> Prop :=
+| ss_nil : sorted_stakes []
+| ss_cons x l : (forall y, In y l -> stake_before x y = true) -> sorted_stakes l -> sorted_stakes (x :: l).
+
+Lemma insert_stake_perm x l : Permutation (x :: l) (insert_stake x l).
+Proof.
+  induction l as [|y l IH]; cbn [insert_stake]; [constructor; constructor|].
+  destruct (stake_before x y); [apply Permutation_refl|].
+  eapply perm_trans; [apply perm_swap|]. constructor. exact IH.
+Qed.
+Lemma sort_stakes_perm l : Permutation l (sort_stakes l).
+Proof.
+  induction l as [|x l IH]; cbn [sort_stakes fold_right]; [constructor|].
+  eapply perm_trans; [constructor; exact IH|apply insert_stake_perm].
+Qed.
+
+Lemma insert_stake_sorted x l :
+  (forall y, In y l -> fst y <> fst x) -> sorted_stakes l -> sorted_stakes (insert_stake x l).
+Proof.
+  intros Hne S. induction S as [|y l Hall S IH]; cbn [insert_stake].
+  - constructor; [intros ? []|constructor].
+  - destruct (stake_before x y) eqn:E.
+    + constructor; [|constructor; assumption].
+      intros z [<-|Hz]; [exact E|]. apply stake_before_iff. apply stake_before_iff in E. specialize (Hall z Hz). apply stake_before_iff in Hall. lia.
+    + constructor.
+      * intros z Hz. apply (Permutation_in _ (Permutation_sym (insert_stake_perm x l))) in Hz. destruct Hz as [<-|Hz]; [|apply Hall; exact Hz].
+        assert (N : fst y <> fst x) by (apply Hne; left; reflexivity).
+        apply stake_before_iff. assert (~ (snd x < snd y \/ (snd x = snd y /\ fst x < fst y))) by (rewrite <- stake_before_iff; congruence). lia.
+      * apply IH. intros z Hz. apply Hne. right; exact Hz.
+Qed.
+Lemma sort_stakes_sorted l : NoDup (map fst l) -> sorted_stakes (sort_stakes l).
+Proof.
+  induction l as [|x l IH]; intros ND; cbn [sort_stakes fold_right]; [constructor|].
+  inversion ND as [|? ? Hnin ND']; subst. apply insert_stake_sorted; [|apply IH; exact ND'].
+  intros y Hy Heq. apply Hnin. rewrite <- Heq. apply in_map.
+  eapply Permutation_in; [apply Permutation_sym, sort_stakes_perm|exact Hy].
+Qed.
+
+Lemma sorted_stakes_unique a : forall b, sorted_stakes a -> sorted_stakes b -> Permutation a b -> a = b.
+Proof.
+  induction a as [|x a IH]; intros b Sa Sb P.
+  - apply Permutation_nil in P. subst; reflexivity.
+  - destruct b as [|y b]; [apply Permutation_sym, Permutation_nil in P; discriminate|].
+    inversion Sa as [|? ? Ha Sa']; inversion Sb as [|? ? Hb Sb']; subst.
+    assert (x = y).
+    { assert (Ix : In x (y :: b)) by (eapply Permutation_in; [exact P|left; reflexivity]).
+      assert (Iy : In y (x :: a)) by (eapply Permutation_in; [apply Permutation_sym; exact P|left; reflexivity]).
+      destruct Ix as [->|Ix]; [reflexivity|]. destruct Iy as [->|Iy]; [reflexivity|].
+      specialize (Ha y Iy). specialize (Hb x Ix). apply stake_before_iff in Ha, Hb. lia. }
+    subst y. f_equal. apply IH; [assumption|assumption|]. eapply Permutation_cons_inv; exact P.
+Qed.
+
+Theorem sort_stakes_order_independent a b :
+  Permutation a b -> NoDup (map fst a) -> sort_stakes a = sort_stakes b.
+Proof.
+  intros P ND.
+  assert (NDb : NoDup (map fst b)) by (eapply Permutation_NoDup; [apply Permutation_map; exact P|exact ND]).
+  apply sorted_stakes_unique; [apply sort_stakes_sorted; exact ND|apply sort_stakes_sorted; exact NDb|].
+  eapply perm_trans; [apply Permutation_sym, sort_stakes_perm|]. eapply perm_trans; [exact P|apply sort_stakes_perm].
+Qed.
